@@ -18,6 +18,10 @@ for p in props:
         na.append(dict(property_id=pid, reason='check not built yet in this session (planned, see DESIGN.md section 4); not claimed until its machinery exists'))
         continue
     src = open(path).read()
+    import importlib
+    mod = importlib.import_module('vsched.props.' + pid.lower())
+    rule = getattr(mod, 'RULE', '')
+    assumptions = list(getattr(mod, 'ASSUMPTIONS', []))
     level = 'exploration' if "LEVEL = 'exploration'" in src else 'model_checking'
     tech = {'model_checking': 'stateless deviation-bounded model checking of the implementation (exhaustive schedule/choice enumeration on a virtual asyncio loop)',
             'exploration': 'exhaustive enumeration of a finite input alphabet against an independent reference model'}[level]
@@ -25,11 +29,11 @@ for p in props:
             'bubus.models.datetime, psutil; oracle reads harness records only. Bounded: scenario grammar and deviation bound are in the evidence file.')
     checks.append(dict(property_id=pid, quick_cmd=f'./check {pid} --tier quick', thorough_cmd=f'./check {pid} --tier thorough',
                        evidence_file=f'/verif/evidence/{pid}.json', replay_cmd_template='./check --replay {path}', engine='vsched',
-                       level_claimed=dict(category=level, text=TEXT['default'] if level == 'model_checking' else
+                       level_claimed=dict(category=level, text=(TEXT['default'] + ' Explored here: ' + rule) if level == 'model_checking' else
                                           'complete enumeration of a finite alphabet of declared result types x returned values and of handler-outcome sequences x accessor flags, '
-                                          'each compared with an independent reference model written from the README; sequential code, so input enumeration is the model-checking analogue',
+                                          'each compared with an independent reference model written from the README; sequential code, so input enumeration is the model-checking analogue. Explored here: ' + rule,
                                           design_ref=f'DESIGN.md section 4 ({pid})'),
-                       level_note=note, technique=tech))
+                       level_note=note + (' Property-specific assumptions: ' + '; '.join(assumptions) if assumptions else ''), technique=tech))
 m = dict(version=1,
          setup_cmd='./check --selftest',
          hooks=dict(guard='BUBUS_VERIF', enable='no source hooks are needed: every seam is a harness-side substitution of module attributes (checks export BUBUS_VERIF=1 for uniformity, nothing in /repo reads it)',
